@@ -73,6 +73,11 @@ def impl_eval(case):
         if case['hist'] == 'deepcopy':
             use = copy.deepcopy(use)
         c01.edit_in_place(use, cfg)
+    if case.get('mapping'):
+        # the configuration handed over as a read-only MAPPING (types.MappingProxyType of the dict) — a configuration is what
+        # it maps, not which class holds it
+        import types
+        use = types.MappingProxyType(use)
     obs, d, _ = iu.obs_loads(lambda: iso8583.loads(data, encoding=codec, iso_config=use, hex_bitmap=bool(case['hex'])), cfg)
     why = None
     if d is None:
@@ -135,6 +140,9 @@ def explore(run, tier):
                     m = {'MTI': '1240', f'DE{k}': pan, 'DE3': '000000', 'DE24': iu.text(rng, codec, 3)}
                     cases.append({'cfg': cfg, 'codec': codec, 'hex': n % 2, 'msg': iu.dict_wire(m),
                                   'unique': kind == 'digits'})
+                    if n in (12, 16, 19, 30):
+                        cases.append({'cfg': cfg, 'codec': codec, 'hex': n % 2, 'msg': iu.dict_wire(m),
+                                      'unique': kind == 'digits', 'mapping': True})
                     if n in (10, 11, 16, 19, 25, 40):
                         cases.append({'cfg': cfg, 'codec': codec, 'hex': n % 2, 'msg': iu.dict_wire(m),
                                       'unique': kind == 'digits', 'hist': ['inplace', 'deepcopy'][(n + rep) % 2]})
